@@ -40,3 +40,19 @@ macro_rules! ensure_eq {
         }
     }};
 }
+
+/// `guard!(slow, expr, |panic_message| error_value)`: evaluates `expr` (a `Result`); in the slow pass of
+/// `pan::two_pass` a panic inside it becomes `Err(error_value)`.
+#[macro_export]
+macro_rules! guard {
+    ($slow:expr, $e:expr, $conv:expr) => {
+        if $slow {
+            match $crate::pan::catch(|| $e) {
+                Ok(r) => r,
+                Err(p) => Err(($conv)(format!("panic: {}", p))),
+            }
+        } else {
+            $e
+        }
+    };
+}
